@@ -16,7 +16,7 @@ vars == <<prog, tcmd, tall, tfault, phase, i, j, outcome, nexec, files, executed
 Pending == <<"pending", "", 0, "", "">>
 Raise(cls, idx, pn, what) == outcome' = <<"err", cls, idx, pn, what>> /\ phase' = "done"
 
-Init == /\ tcmd \in DeclNames /\ tall \in BOOLEAN /\ tfault \in FaultsOf(D(tcmd))
+Init == /\ tcmd \in DeclNames /\ tall \in BOOLEAN /\ tfault \in FaultsOf(D(tcmd)) /\ (tfault[1] = "pair" => ~tall)
         /\ \E pos \in {"first", "last"} : prog = Build(tcmd, tall, tfault, pos)
         /\ phase = "load" /\ i = 1 /\ j = 1 /\ outcome = Pending /\ nexec = 0 /\ files = {} /\ executed = {}
 
@@ -84,5 +84,5 @@ ErrorIsAFault == outcome[1] = "err" => \E f \in Faults(prog) : Matches(f)       
 RejectBeforeEffects == outcome[1] = "err" => nexec = 0 /\ files = {}                                           \* C12
 EscapeTyped == outcome[1] = "err" => outcome[2] \in MPilotErrors                                               \* C13
 \* the builder and the declarative definition agree: exactly the injected fault
-BuilderSound == (tfault[1] = "none") <=> WellFormed(prog)
+BuilderSound == (tfault[1] = "none" => WellFormed(prog)) /\ (tfault[1] \notin {"none", "pair"} => ~WellFormed(prog))
 =============================================================================
